@@ -11,7 +11,11 @@ def gJc2mPlayer : G Jc2m.Player := do
   let steam ← G.oneOf [76561197960265728, 76561198000000000, 0, 1, 18446744073709551615]
   let alt ← gStr 12
   let useAlt ← G.chance 1 5
-  pure ⟨← gStr 16, if useAlt then alt else natDec steam, ← G.nat 16⟩
+  -- the smallest entry the format allows (two empty strings and the ping: 4 bytes) one time in eight
+  let anon ← G.chance 1 8
+  let name ← gStr 16
+  let ping ← G.nat 16
+  pure (if anon then ⟨[], [], ping⟩ else ⟨name, if useAlt then alt else natDec steam, ping⟩)
 
 def gJc2mVars (listed : Nat) : G Vars := do
   let pw ← G.oneOf ["0", "1", "true", "false", "True", "FALSE", "2", "255", "+1"]
